@@ -3,7 +3,12 @@ from typing import Dict, List, Optional, Set, cast
 
 from graphql import FragmentDefinitionNode, GraphQLSchema
 
-from ..codegen import generate_expr, generate_method_call, generate_module
+from ..codegen import (
+    generate_expr,
+    generate_method_call,
+    generate_module,
+    model_has_forward_refs,
+)
 from ..plugins.manager import PluginManager
 from .constants import BASE_MODEL_IMPORT, MODEL_REBUILD_METHOD
 from .result_types import ResultTypesGenerator
@@ -131,9 +136,11 @@ class FragmentsGenerator:
         self, top_level_fragments_names: List[str], class_defs: List[ast.ClassDef]
     ) -> List[ast.Call]:
         class_names = [c.name for c in class_defs]
-        sorted_fragments_names = sorted(
-            top_level_fragments_names, key=class_names.index
+        # nested classes are rebuilt too when they hold forward references
+        names_to_rebuild = set(top_level_fragments_names).union(
+            c.name for c in class_defs if model_has_forward_refs(c)
         )
+        sorted_fragments_names = sorted(names_to_rebuild, key=class_names.index)
         return [
             generate_expr(generate_method_call(name, MODEL_REBUILD_METHOD))
             for name in sorted_fragments_names
